@@ -133,14 +133,20 @@ class LibTop(Elaboratable):
 LIB = ["forwarder_pipe_chain", "pipe_pipe_fifo", "connect_between_forwarders", "condition_on_forwarder", "filter_map_collector", "crossbar"]
 
 
-def try_netlist(top, ports_fn):
-    try:
-        frag = Fragment.get(top, None)
-        design = frag.prepare(ports=ports_fn(), hierarchy=("top",))
-        _ir.build_netlist(design)
-        return None
-    except Exception as e:  # noqa: BLE001
-        return e
+def try_netlist(top, ports_fn, ctx=None):
+    from engine.hw import Recorder
+
+    with Recorder() as rec:  # records which /repo functions ran during elaboration (reported as functions under contract)
+        try:
+            frag = Fragment.get(top, None)
+            design = frag.prepare(ports=ports_fn(), hierarchy=("top",))
+            _ir.build_netlist(design)
+            err = None
+        except Exception as e:  # noqa: BLE001
+            err = e
+    if ctx is not None:
+        ctx.functions.update(rec.functions)
+    return err
 
 
 def run(cfg, ctx):
@@ -154,7 +160,7 @@ def run(cfg, ctx):
                 ps += [a.en, a.done] + [v for v in (a.data_in.as_value(), a.data_out.as_value()) if len(v)]
             return ps
 
-        err = try_netlist(top, ports)
+        err = try_netlist(top, ports, ctx)
         ctx.functions.add(("TransactionManager.elaborate", "transactron/core/manager.py"))
         ctx.functions.add(("eager_deterministic_cc_scheduler", "transactron/core/schedulers.py"))
         if err is not None and not isinstance(err, _nir.CombinationalCycle):
@@ -167,7 +173,7 @@ def run(cfg, ctx):
         spec = forwarder_chain(random.Random(cfg["random"]))
     d = DesignTop(spec)
     top = TransactronContextElaboratable(d, transaction_manager=TransactionManager())
-    err = try_netlist(top, lambda: d.inputs + d.outputs)
+    err = try_netlist(top, lambda: d.inputs + d.outputs, ctx)
     ctx.functions.add(("TransactionManager.elaborate", "transactron/core/manager.py"))
     ctx.functions.add(("eager_deterministic_cc_scheduler", "transactron/core/schedulers.py"))
     ctx.functions.add(("TransactionManager._conflict_graph", "transactron/core/manager.py"))
